@@ -6,7 +6,9 @@ Local Open Scope Z_scope.
 
 Inductive case1 :=
 | CCli (c : cfg) (s : sscript) (err auth enc : bool) (m : meth) (ran : list (meth * bool)) (encrypted : bool)
-| CSrv (c : cfg) (s : cscript) (err auth enc : bool) (m : meth) (ran : list (meth * bool)) (encrypted : bool).
+| CSrv (c : cfg) (s : cscript) (err auth enc : bool) (m : meth) (ran : list (meth * bool)) (encrypted : bool)
+| CResCli (c : cfg) (k : ekey) (authed : option bool) (rp : rreply) (err auth enc encrypted : bool)
+| CResSrv (c : cfg) (k : ekey) (authed : option bool) (want_reply : bool) (err auth enc encrypted : bool).
 
 Fixpoint ran_eqb (a b : list (meth * bool)) : bool :=
   match a, b with
@@ -24,10 +26,18 @@ Definition cmp (o : outcome) (err auth enc : bool) (m : meth) (ran : list (meth 
       && ran_eqb (g_ran r) ran && Bool.eqb (g_encrypted r) encrypted
   end.
 
+Definition cmp_res (o : outcome) (err auth enc encrypted : bool) : bool :=
+  match o with
+  | Err _ => err
+  | Ok r => negb err && Bool.eqb (r_auth r) auth && Bool.eqb (r_enc r) enc && Bool.eqb (g_encrypted r) encrypted
+  end.
+
 Definition check1 (c : case1) : bool :=
   match c with
   | CCli cf s err auth enc m ran e => cmp (client_hs cf s) err auth enc m ran e
   | CSrv cf s err auth enc m ran e => cmp (server_hs cf s) err auth enc m ran e
+  | CResCli cf k a rp err auth enc e => cmp_res (client_resume cf (mkE k a) rp) err auth enc e
+  | CResSrv cf k a _ err auth enc e => cmp_res (server_resume cf (Some (mkE k a))) err auth enc e
   end.
 
 (* a case of the correspondence run is a small batch of runs (fewer, larger
